@@ -614,6 +614,11 @@ def _fetch_and_resolve(
 
     reader = ValidatedReader(ipc.open_stream(BytesIO(data)), ipc_validation)
     data_batches: list[tuple[pa.RecordBatch, pa.KeyValueMetadata | None]] = []
+    # Log messages found in the payload are held back until the payload has
+    # passed every structural check below: a payload that is then rejected
+    # (nested pointer, zero or several data batches, schema mismatch) must not
+    # have handed anything to application code, its log messages included.
+    pending_logs: list[Message] = []
 
     while True:
         try:
@@ -628,7 +633,7 @@ def _fetch_and_resolve(
             )
 
         # Dispatch log batches
-        if _dispatch_log_or_error(fetched_batch, fetched_cm, on_log):
+        if _dispatch_log_or_error(fetched_batch, fetched_cm, pending_logs.append):
             continue
 
         data_batches.append((fetched_batch, fetched_cm))
@@ -647,6 +652,10 @@ def _fetch_and_resolve(
         raise ValueError(
             f"Schema mismatch in ExternalLocation: expected {expected_schema}, got {resolved_batch.schema}"
         )
+
+    if on_log is not None:
+        for message in pending_logs:
+            on_log(message)
 
     # Attach fetch metadata
     fetch_metadata = pa.KeyValueMetadata(
